@@ -520,6 +520,16 @@ def run(bless=False):
             with open(path, "w") as f:
                 f.write(text)
     status["depends"] = DEPENDS
+    # PyLite: the abstract syntax of the protocol / record modules, regenerated in full
+    try:
+        import pylite
+        pst = pylite.run(GEN, quiet=True)
+        status["pylite"] = pst
+        for k, v in sorted(pst.items()):
+            if not v.startswith("ok"):
+                status["errors"].append("pylite %s: %s" % (k, v))
+    except Exception as e:  # noqa: BLE001
+        status["errors"].append("pylite translator failed: %s: %s" % (type(e).__name__, e))
     with open(os.path.join(GEN, "status.json"), "w") as f:
         json.dump(status, f, indent=1, sort_keys=True)
     return status
